@@ -2067,7 +2067,11 @@ class _ChunkedTransferDecoder:
 
         if eolIndex == -1:
             # Still no end of network line marker found.
-            #
+            if self._buffer == b"\r":
+                # This may be the first half of the empty line that ends the
+                # trailers, which doesn't count against the limit.
+                return False
+
             # Check if we've run up against the trailer size limit: if the next
             # read contains the terminating CRLF then we'll have this many bytes
             # of trailers (including the CRLFs).
